@@ -160,6 +160,74 @@ SEEDS2 = {
  "C20-4": ("C20", "CBORTagCWT = 0x61 (same as C20-2)", "CBORTagCWT"),
 }
 
+# round 3 (ids Cxx-5 = /tmp/seed3/Cxx/1, Cxx-6 = /tmp/seed3/Cxx/2): agents were told to aim at an easily forgotten dimension of
+# the property's quantifier (a rare kind / algorithm / representation / flag combination / second list element / error path)
+SEEDS3 = {
+ "C01-5": ("C01", "all six UnmarshalCBOR / Decrypt: the `case cbor.RawMessage` branch removed, RawMessage payloads go through the strict decoder",
+           "a pre-encoded (cbor.RawMessage) payload containing an indefinite-length item"),
+ "C01-6": ("C01", "Signers / Verifiers / KeySet.Lookup: empty kid matches nothing (= C01-4)", "COSE_Sign with a signer key that has no kid"),
+ "C02-5": ("C02", "cose/sign.go + sign1.go share one sigStructure helper that picks the 4-element \"Signature1\" form when sign_protected is empty",
+           "a COSE_Sign1 signature re-framed as COSE_Sign under a signer entry with protected h'' verifies"),
+ "C02-6": ("C02", "key/ecdsa/ecdsa.go Verify: `if r, s, err := DecodeSignature(...)` shadows the named result; wrong-length signatures return nil",
+           "any ES256/384/512 message with a truncated signature verifies, whatever the payload"),
+ "C03-5": ("C03", "empty protected bucket rewritten to h'' on decode (= C03-4)", "bucket h'' replaced by h'a0'"),
+ "C03-6": ("C03", "CCM tag(): first AAD block via a switch, continues at adata[14:] (= C03-2)", "AES-CCM, external data >= ~64 KiB"),
+ "C04-5": ("C04", "shared sigStructure helper drops sign_protected when it is empty",
+           "a COSE_Sign signer whose protected bucket is h'': signed / verified over a 4-element array"),
+ "C04-6": ("C04", "cose/kdf_context.go: SuppPrivInfo == nil and Other == nil become len(...) == 0",
+           "a present-but-empty SuppPubInfo.other or SuppPrivInfo is dropped from the KDF context"),
+ "C05-5": ("C05", "cose/mac.go MacMessage.Verify checks the protected alg only after MACVerify failed",
+           "a COSE_Mac whose header names HMAC 256/256 but whose 8-byte tag was made with the 256/64 key over the same octets"),
+ "C05-6": ("C05", "cose/encrypt.go Encrypt: protected alg read with a type assertion to int",
+           "COSE_Encrypt with the alg header held as int64 / uint64 / key.Alg and a key of another algorithm"),
+ "C06-5": ("C06", "buffered random source with short reads (= C06-1)", "long nonce histories"),
+ "C06-6": ("C06", "\"base iv is missing\" decided by Key.Has(5) before GetBytes",
+           "a Partial IV with a key whose Base IV is present but empty / nil: nonce derived from no Base IV"),
+ "C07-5": ("C07", "xorIV loops over the Base IV (= C07-3)", "Base IV longer than the nonce + Partial IV"),
+ "C07-6": ("C07", "key/cbor.go decOpts gains MaxNestedLevels: 65535",
+           "a COSE_recipient nested thousands of levels deep: Recipient.UnmarshalCBOR re-decodes every level (quadratic time)"),
+ "C08-5": ("C08", "cose/mac.go MacMessage.UnmarshalCBOR decodes a typed payload with cbor.Unmarshal (defaults)",
+           "COSE_Mac with a struct / plain-map payload type and a payload with duplicate keys or indefinite lengths"),
+ "C08-6": ("C08", "CoseMap.MarshalCBOR duplicate guard skips int / string labels and looks the others up in the map itself",
+           "one label under two non-int Go integer kinds (int64(4) + uint64(4)), or beyond 32 bits: emitted twice"),
+ "C09-5": ("C09", "nested recipient with nil Unprotected encodes null (= C09-4)", "two-layer recipient, parent Unprotected nil"),
+ "C09-6": ("C09", "duplicate guard keyed by fmt.Sprint (= C09-3)", "labels 4 and \"4\" in one map"),
+ "C10-5": ("C10", "key/ecdsa ToCompressedKey derives the sign bit with a type switch on bool / []byte",
+           "a public key whose y is held as key.ByteStr and is odd: the compressed key denotes -Q"),
+ "C10-6": ("C10", "compressed-point buffer of 1 + BitSize/8 octets (P-521: 65 instead of 66)", "every compressed ES512 key is refused"),
+ "C11-5": ("C11", "AES-CBC-MAC through a 512-byte stack array whose padding is stale (as C11-1)", "messages > 512 octets, not a multiple of 16"),
+ "C11-6": ("C11", "key/hmac New: truncation to 8 octets only if k.Get(alg) == AlgorithmHMAC_256_64 (an int comparison)",
+           "an HMAC 256/64 key whose alg member is uint64 / int64 / key.Alg: 32-byte tags"),
+ "C12-5": ("C12", "CCM B_0 Adata flag set when adata != nil (instead of len > 0)", "an empty but non-nil additional data slice"),
+ "C12-6": ("C12", "CCM Decrypt applies the plaintext limit to the ciphertext (= C01-1)", "CCM-16 plaintexts within a tag length of 65535"),
+ "C13-5": ("C13", "HKDF512 limit with sha256.Size (= C13-1)", "HKDF512 lengths 8161..16320"),
+ "C13-6": ("C13", "AES-HKDF reader keeps an integer offset into the last block; the leftover path assigns it instead of advancing",
+           "three or more reads where a later read is served entirely from the buffered block (20,4,40 / 8,0,56 / byte-wise)"),
+ "C14-5": ("C14", "keyToPublic left-pads x before the OKP / EC2 split (as C14-4)", "an X25519 remote key with a 1..31-octet x"),
+ "C14-6": ("C14", "ECDH decodes the remote point on the local key's curve; the remote crv is never compared",
+           "X25519 local with a P-256 remote (32-octet x), NIST local with an X25519 or smaller-curve compressed remote"),
+ "C15-5": ("C15", "KeyToPrivate: y check `err != nil || cmp != 0` — a boolean y makes GetBytes fail",
+           "a private EC2 key {d, x, y: sign bit}: refused although conformant"),
+ "C15-6": ("C15", "key/ecdh ToPublicKey returns the key as is when it has x (instead of when it has no d)",
+           "an ECDH private key that also carries x (and y): the \"public\" key still holds d"),
+ "C16-5": ("C16", "ECDHer.ECDH gate: && between the two negated tests became ||",
+           "an ECDH key whose key_ops is exactly [derive key] or [derive bits]: every agreement refused"),
+ "C16-6": ("C16", "Ops.Has binary-searches; Key.Ops() sorts copies but hands a stored key.Ops out as is",
+           "k[key_ops] = key.Ops{10, 9} (descending): listed operations refused"),
+ "C17-5": ("C17", "key/aesccm/register.go registrations as a slice + loop, alg 33 dropped",
+           "Key.Encryptor() for an AES-CCM-64-128-256 key: not registered"),
+ "C17-6": ("C17", "key/hmac drops the blank import of crypto/sha512",
+           "HMAC 384/384 and 512/512 in a program that links no SHA-512 otherwise: panic at MACCreate"),
+ "C18-5": ("C18", "CoseMap.GetInt64 / GetUint64: `v := m.Get(k); if v == nil { return 0, nil }`",
+           "a claims map whose nbf / iat is present with a null value: read as 1970 and accepted"),
+ "C18-6": ("C18", "skew cap on int(ClockSkew.Minutes()) (= C18-1)", "skew strictly between 10 and 11 minutes"),
+ "C19-5": ("C19", "Key.Ops() writes back (= C19-1)", "concurrent first uses of a decoded key"),
+ "C19-6": ("C19", "cwt.Validator gets earliest / latest fields written by every Validate when FixedNow is unset",
+           "one Validator without FixedNow (the production configuration) shared by goroutines"),
+ "C20-5": ("C20", "EAT claims as base + iota across the hole at 261 (= C20-1)", "five EAT claim constants"),
+ "C20-6": ("C20", "iana/header.go: HeaderAlgorithmParameterPartyVOther = -23 (assigned -26, duplicate of PartyUOther)", "that constant"),
+}
+
 
 def main():
     log = open(sys.argv[1]).read() if len(sys.argv) > 1 else ""
@@ -168,7 +236,7 @@ def main():
     for line in log.split("\n"):
         m = re.match(r"=== (C\d\d)/(\d) ::", line)
         if m:
-            cur = f"{m.group(1)}-{int(m.group(2)) + (2 if os.environ.get('SEED_ROUND', '1') != '1' else 0)}"
+            cur = f"{m.group(1)}-{int(m.group(2)) + {'1': 0, '2': 2, '3': 4}[os.environ.get('SEED_ROUND', '1')]}"
             results.setdefault(cur, {})
             continue
         m = re.match(r"(C\d\d) exit=(\d+) (.*)", line)
@@ -177,7 +245,8 @@ def main():
             results[cur][m.group(1)] = {"exit": int(m.group(2)), "verdict": verdict, "line": m.group(3)[:200]}
     root = "/verif/seeded"
     rnd = os.environ.get("SEED_ROUND", "1")
-    table, base, wt, off = (SEEDS, "/tmp/seed", "/tmp/wt", 0) if rnd == "1" else (SEEDS2, "/tmp/seed2", "/tmp/wt2", 2)
+    table, base, wt, off = {"1": (SEEDS, "/tmp/seed", "/tmp/wt", 0), "2": (SEEDS2, "/tmp/seed2", "/tmp/wt2", 2),
+                            "3": (SEEDS3, "/tmp/seed3", "/tmp/wt3", 4)}[rnd]
     for sid, (prop, what, needs) in sorted(table.items()):
         c, i = sid.split("-")
         i = str(int(i) - off)
